@@ -946,7 +946,8 @@ def should_unwrap(obj: type) -> bool:
 
     This is useful for determining what type to use at run-time for coercion.
     """
-    return (not isliteral(obj)) and any(x(obj) for x in _UNWRAPPABLE)
+    # `isliteral()` looks through `ClassVar[...]`, so ask about the annotation itself.
+    return tp.get_origin(obj) is not tp.Literal and any(x(obj) for x in _UNWRAPPABLE)
 
 
 @compat.cache
